@@ -399,8 +399,12 @@ func cellSortedAt(al *ssa.Alloc, site ssa.Instruction) bool {
 }
 
 func c05Sorted(c *core.Ctx) {
+	c05SortedIn(c, "C05.R2", []string{"ocimem", "ociunify"})
+}
+
+func c05SortedIn(c *core.Ctx, rule string, rels []string) {
 	n := 0
-	for _, rel := range []string{"ocimem", "ociunify"} {
+	for _, rel := range rels {
 		for _, fn := range c.P.ModuleFunctions(rel) {
 			if isInstance(fn) {
 				continue
@@ -411,7 +415,7 @@ func c05Sorted(c *core.Ctx) {
 				}
 				n++
 				ok, why := sortedAt(ci.Common().Args[0], ci, 0)
-				c.Check(ok, "C05.R2", facts.FuncName(fn)+"/sorted-before-SliceSeq", ci.Pos(), "listed slice is sorted after its last append", "a listing is produced from a slice that is not sorted: "+why)
+				c.Check(ok, rule, facts.FuncName(fn)+"/sorted-before-SliceSeq", ci.Pos(), "listed slice is sorted after its last append", "a listing is produced from a slice that is not sorted: "+why)
 			}
 			// yielding literals ranging over a captured slice (mergeIter's error-tail form)
 			if yp := yieldParam(fn); yp != nil && fn.Parent() != nil && isSeqConsumer(yp) {
@@ -426,7 +430,7 @@ func c05Sorted(c *core.Ctx) {
 						}
 						n++
 						ok2, why := sortedAt(ia.X, in, 0)
-						c.Check(ok2, "C05.R2", facts.FuncName(fn)+"/sorted-before-range", in.Pos(), "ranged slice is sorted", "a yielding literal ranges over a slice that is not sorted: "+why)
+						c.Check(ok2, rule, facts.FuncName(fn)+"/sorted-before-range", in.Pos(), "ranged slice is sorted", "a yielding literal ranges over a slice that is not sorted: "+why)
 					}
 				}
 			}
@@ -459,17 +463,17 @@ func c05Sorted(c *core.Ctx) {
 						}
 					}
 				}
-				c.Check(ok, "C05.R2", facts.FuncName(fn)+"/compact-same-comparator", ci.Pos(), "de-duplication uses the sort comparator (== 0)", "CompactFunc does not de-duplicate with the comparator the slice was sorted with")
+				c.Check(ok, rule, facts.FuncName(fn)+"/compact-same-comparator", ci.Pos(), "de-duplication uses the sort comparator (== 0)", "CompactFunc does not de-duplicate with the comparator the slice was sorted with")
 			}
 		}
 	}
-	if n < 3 {
-		c.Fail("C05.R2", "instance-floor", 0, sprintf("only %d sorted-listing sites found in ocimem/ociunify", n))
+	if n < len(rels) {
+		c.Fail(rule, "instance-floor", 0, sprintf("only %d sorted-listing sites found in ocimem/ociunify", n))
 	}
 	// ocimem strict-after filter
 	mk := c.P.Func("ocimem", "mapKeysIter")
 	if mk == nil {
-		c.Fail("C05.R2", "anchor/ocimem.mapKeysIter", 0, "ocimem.mapKeysIter not found")
+		c.Fail(rule, "anchor/ocimem.mapKeysIter", 0, "ocimem.mapKeysIter not found")
 		return
 	}
 	c.Analysed("ocimem.mapKeysIter")
@@ -497,10 +501,10 @@ func c05Sorted(c *core.Ctx) {
 			}
 		}
 		found = true
-		c.Check(strict, "C05.R2", "ocimem.mapKeysIter/strictly-after", ci.Pos(), "keys kept only under cmp(startAfter, k) < 0", "the key filter is not the strict test cmp(startAfter, k) < 0: the start point itself (or items before it) would be listed")
+		c.Check(strict, rule, "ocimem.mapKeysIter/strictly-after", ci.Pos(), "keys kept only under cmp(startAfter, k) < 0", "the key filter is not the strict test cmp(startAfter, k) < 0: the start point itself (or items before it) would be listed")
 	}
 	if !found {
-		c.Fail("C05.R2", "ocimem.mapKeysIter/strictly-after", mk.Pos(), "no filtered append found")
+		c.Fail(rule, "ocimem.mapKeysIter/strictly-after", mk.Pos(), "no filtered append found")
 	}
 	// same comparator for filter and sort
 	sameCmp := false
@@ -509,7 +513,7 @@ func c05Sorted(c *core.Ctx) {
 			sameCmp = true
 		}
 	}
-	c.Check(sameCmp, "C05.R2", "ocimem.mapKeysIter/sort-comparator", mk.Pos(), "sorted with the comparator used by the filter", "keys are not sorted with the comparator parameter")
+	c.Check(sameCmp, rule, "ocimem.mapKeysIter/sort-comparator", mk.Pos(), "sorted with the comparator used by the filter", "keys are not sorted with the comparator parameter")
 }
 
 func isSeqConsumer(yp *ssa.Parameter) bool {
